@@ -35,9 +35,8 @@ LEVEL_NOTE = ('trusted: Coq kernel + vm_compute; asyncio primitives (Queue, wait
     'done-callbacks, call_later, task wake-up order) are modelled in Batcher.v and validated only by the '
     'correspondence runs; harness/vloop.py, harness/batcher_drv.py, coq/theories/Case_Batcher.v (agree + monitors).  '
     'The state-free conjuncts of the monitors (ok_basic) are proved complete and sound; the full monitors ok_C04 / '
-    'ok_C10 / ok_C11 are proved complete on Chain-free event lists (monitor_complete_nochain) and partially sound '
-    'model-free (monitor_sound_*); for scripts with Chain events the tie of the state-dependent conjuncts is agree '
-    '(model trace = observed trace) on every case')
+    'ok_C10 / ok_C11 are proved complete on ALL event lists, Chain events included (monitor_complete; ok_C04 / '
+    'ok_C10 for batch_timeout > 0), and partially sound model-free (monitor_sound_*)')
 TECHNIQUE = D.TECHNIQUE
 
 run_impl = D.run_impl
@@ -156,9 +155,10 @@ LEVEL_TEXT = ('On the macro-step model of AsyncBackgroundBatcher (coq/theories/B
     'loop; the monitor ok_C10 judges the observed trace independently of the model (monitor_basic_complete / '
     'monitor_basic_sound: the state-free conjuncts — no TaskDied, completion clock, no double completion, non-empty '
     'duplicate-free batches not in the future — accept every model trace for all event lists and imply these facts; '
-    'monitor_sound_partial for the full monitor). monitor_complete_nochain: the FULL monitor ok_C10 (FIFO, size, '
+    'monitor_sound_partial for the full monitor). monitor_complete: the FULL monitor ok_C10 (FIFO, size, '
     'split, within, deadline / start instant, concurrency, clock, end rule) accepts every model trace for all '
-    'configurations with batch_timeout > 0 and all event lists without Chain events (Case_Batcher_C10.v, on the '
-    'simulation of Case_Batcher_C11.v plus the invariant WB of BatcherWithin.v); monitor_sound_starts_partial: '
+    'configurations with batch_timeout > 0 and ALL event lists, Chain events included (Case_Batcher_Full.v, on the '
+    'two-phase simulation plus the invariant WB of BatcherWithin.v; monitor_complete_nochain is the earlier '
+    'Chain-free version, Case_Batcher_C10.v); monitor_sound_starts_partial: '
     'model-free soundness — every observed BatchStart of an accepted trace is exactly the first n requests of the '
     'expected queue with the size / split / within / deadline / concurrency / clock facts as Props.')
